@@ -89,15 +89,19 @@ F_Leaves ==
     [] Family = "coll"   -> Ints({0, 1, 2, 4}) \cup Strs({"a", "z", "N"}) \cup {Neg1, L(NNil, "nil"),
                               Mem("Xs"), Mem("Ss"), Mem("Anys"), Mem("M"), Mem("MA"), Mem("S"), Mem("I"), Mem("O"), Mem("P"), Mem("Any")}
     [] Family = "access" -> Ints({1, 2}) \cup Strs({"a"}) \cup {Mem("O"), Mem("P"), Mem("Os"), Mem("Ps"), Mem("I"), Mem("S"), Mem("Xs"), Mem("Anys"), Mem("F")}
-    [] Family = "builtin" -> Ints({0, 1, 2}) \cup Strs({"a"}) \cup {Mem("Xs"), Mem("Ys"), Mem("I"), Mem("Os"), Mem("Ss")}
+    [] Family = "builtin" -> Ints({0, 1, 2}) \cup Strs({"a"}) \cup {Mem("Xs"), Mem("Ys"), Mem("I"), Mem("Os"), Mem("Ss"),
+                              L(NBool(TRUE), "bool"), L(NBool(FALSE), "bool")}
+    [] Family = "nest"   -> Ints({1}) \cup {Mem("Xs"), Mem("Ys")}      \* closures nested three deep
     [] Family = "mixed"  -> Ints({0, 1, 3}) \cup {L(NBool(TRUE), "bool"), L(NStr("ab"), "string"), L(NNil, "nil"), L(NFloat("1.5", 3, 1), "float64"),
                               Mem("I"), Mem("B"), Mem("S"), Mem("Xs"), Mem("F"), Mem("O"), Mem("P"), Mem("M"), Mem("Any")}
     [] Family = "alloc"  -> Ints({0, 1, 3}) \cup {Mem("I"), Mem("J"), Mem("Xs")}
     [] Family = "calls"  -> Ints({1}) \cup {L(NNil, "nil"), Mem("I"), Mem("P")}
     [] Family = "inlit"  -> Ints({1, 2}) \cup Strs({"a"}) \cup {Mem("I64"), Mem("F"), Mem("K"), Mem("Big")}
     [] Family = "cexpr"  -> Ints({1}) \cup Strs({"1", "a"}) \cup {L(NFloat("1.0", 1, 0), "float64"), Mem("I")}
+    [] Family = "rng"    -> Ints({1, 3}) \cup {Mem("I"), Mem("J")}
     [] Family = "order"  -> Ints({0, 1, 2}) \cup {Mem("Xs"), Mem("I"), Mem("F"), Mem("S"), Mem("I64")}
-    [] Family = "laws"   -> Ints({0, 1, 2, 3}) \cup {Neg1, Mem("Xs"), Mem("Ys"), Mem("I"), Mem("J"), Mem("S"), Mem("Os"), Mem("Anys")}
+    [] Family = "laws"   -> Ints({0, 1, 2, 3}) \cup {Neg1, Mem("Xs"), Mem("Ys"), Mem("I"), Mem("J"), Mem("S"), Mem("Os"), Mem("Anys"),
+                              L(NBool(TRUE), "bool"), L(NBool(FALSE), "bool")}
     [] Family = "ovl"    -> Ints({1, 2}) \cup {L(NFloat("0.5", 1, 1), "float64"), Mem("B"), Mem("I"), Mem("J"), Mem("F"), Mem("Any"), Mem("Xs"), Mem("Anys"), Mem("S"), Mem("I64")}
     [] Family = "ovlb"   -> Ints({1}) \cup {Mem("B"), Mem("I"), Mem("Xs")}   \* `+` in branches, bounds and sliced operands
     [] Family = "promo"  -> {Mem(m) : m \in {"I", "I8", "I16", "I32", "I64", "U", "U8", "U16", "U32", "U64", "F32", "F"}}
@@ -123,6 +127,8 @@ F_BinOps ==
     [] Family = "calls"  -> {}
     [] Family = "inlit"  -> {"in", "not in"}
     [] Family = "cexpr"  -> {"+"}
+    [] Family = "rng"    -> {".."}
+    [] Family = "nest"   -> {">"}
     [] Family = "order"  -> {"in", "not in", ".."}
     [] Family = "laws"   -> {">", "==", "%", "/", "and", "in", ".."}
     [] Family = "ovl"    -> {"+", "*", "==", ">"}
@@ -156,6 +162,7 @@ F_Funcs ==
     [] Family = "ovl"    -> {"Id", "Half"}
     [] Family = "calls"  -> {"Pair", "Tup", "VarI"}
     [] Family = "cexpr"  -> {"AnyId", "Var", "Cat", "Id"}
+    [] Family = "rng"    -> {"Rev", "Sum"}
     [] OTHER -> {}
 
 F_Builtins ==
@@ -164,19 +171,21 @@ F_Builtins ==
     [] Family = "alloc" -> {"map", "filter", "count"}
     [] Family = "oversize" -> {"all", "filter", "map", "count"}
     [] Family = "laws" -> {"all", "any"}
+    [] Family = "nest" -> {"all", "any", "one", "count", "map"}
     [] Family = "ovl" -> {"map", "filter", "all"}
     [] OTHER -> {}
 
-F_UseLen  == Family \in {"string", "coll", "builtin", "mixed", "alloc", "oversize", "inlit"}
+F_UseLen  == Family \in {"string", "coll", "builtin", "mixed", "alloc", "oversize", "inlit", "rng", "nest"}
 F_UseCond == Family \in {"logic", "mixed", "builtin", "oversize", "ovl", "ovlb"}
-F_UseIdx  == Family \in {"coll", "access", "string", "mixed", "builtin", "ovl", "calls"}
+F_UseIdx  == Family \in {"coll", "access", "string", "mixed", "builtin", "ovl", "calls", "rng"}
 F_SliceShapes == CASE Family \in {"coll", "string"} -> {"ft", "f", "t", "n"} [] Family = "mixed" -> {"f", "ft"}
                    [] Family = "laws" -> {"f"} [] Family = "ovl" -> {"f"} [] Family = "ovlb" -> {"f", "t"}
                    [] Family = "order" -> {"ft", "f", "t"} [] OTHER -> {}
-F_ArrLens == CASE Family \in {"coll", "mixed", "alloc"} -> {0, 1, 2} [] Family \in {"ovl", "ovlb"} -> {1} [] Family \in {"builtin", "calls", "cexpr"} -> {2}
+F_ArrLens == CASE Family \in {"coll", "mixed", "alloc"} -> {0, 1, 2} [] Family \in {"ovl", "ovlb"} -> {1} [] Family \in {"builtin", "calls"} -> {2}
+               [] Family = "cexpr" -> {1, 2}
                [] Family = "inlit" -> {1, 3} [] Family = "ovconst" -> {3} [] OTHER -> {}
 F_MapLens == CASE Family = "coll" -> {0, 1, 2} [] Family \in {"mixed", "alloc", "ovl"} -> {1} [] OTHER -> {}
-F_ElemLeaves == Family \in {"builtin", "mixed", "alloc", "oversize", "laws", "ovl"}
+F_ElemLeaves == Family \in {"builtin", "mixed", "alloc", "oversize", "laws", "ovl", "nest"}
 F_OrderGuard == Family # "order"
 
 (* Constructs whose outcome on the pinned tree is a catalogued deviation     *)
@@ -199,6 +208,8 @@ F_Guard(op, l, r, s) ==
   /\ (op \in {"in", "not in"} => /\ ~IsSliceT(l.ty) /\ ~IsMapTy(l.ty)     \* no sequence/map looked up in a collection,
                                  /\ (l.ty = "any" => r.e.k = "id"))    \* whatever form the collection takes
   /\ (op = ".." => l.ty # "any" /\ r.ty # "any")
+  \* family rng: a range handed to a function has a run-time bound (a constant range is folded into the program)
+  /\ (op = ".." /\ Family = "rng" => (l.e.k = "id" \/ r.e.k = "id"))
 
 ---------------------------------------------------------------------------
 Init == GInit
@@ -334,6 +345,13 @@ ArgRetypes(t) == (t.k \in {"call", "meth"} /\ \E i \in 1..Len(t.args) :
 
 (* (a map environment types its members by their values: the dynamically typed *)
 (* member Any has no static type there, so sources mentioning it are left out) *)
+(* an overload table with two candidates: Add(int, int) first, then AddAny(interface{}, interface{}), which *)
+(* every other pair of operand types matches (Types!OverloadT)                                            *)
+OvlTreeT == OverloadT(Tree, "")
+OvlCaseT == [src |-> Src(Tree), osrc |-> Src(OvlTreeT), n |-> n, overloaded |-> OvlTreeT # Tree, table |-> TRUE,
+             cdz |-> HasConstDivZero(OvlTreeT), cbp |-> FALSE, runs |-> Runs(OvlTreeT)]
+EmitOvlT == (Complete /\ EmitMode = "ovlt" /\ ~ArgRetypes(Tree)) => PrintT(ToJson(OvlCaseT))
+
 EmitOvl == (Complete /\ EmitMode = "ovl" /\ ~ArgRetypes(Tree)) =>
              PrintT(ToJson(OvlCase)) /\ ("Any" \in Mentions(Tree) \/ PrintT(ToJson(OvlCaseF)))
 
